@@ -180,12 +180,14 @@ spec fn upval(u *Upvalue) value.Value = load(value.Value, u.slot)
 func NewClosedUpvalue
   props C13
   assigns fresh
-  ensures ret != nil && fresh(ret) && closedUp(ret) && upval(ret) == val
+  ensures ret != nil && fresh(ret) && live(ret) && closedUp(ret) && upval(ret) == val
+  ensures onlynew: forall u *Upvalue :: live(u) ==> old(live(u)) || u == ret
 
 func NewUpvalue
   props C13
   assigns fresh
-  ensures ret != nil && fresh(ret) && ret.slot == slot && ret.next == nil
+  ensures ret != nil && fresh(ret) && live(ret) && ret.slot == slot && ret.next == nil
+  ensures onlynew: forall u *Upvalue :: live(u) ==> old(live(u)) || u == ret
 
 func (*Upvalue).IsClosed
   props C13
@@ -216,26 +218,72 @@ func (*Upvalue).Close
   ensures link: u.next == old(u.next)
   ensures stack: forall a int :: a != &u.closed ==> load(value.Value, a) == old(load(value.Value, a))
 
-// capturing a stack slot: the result refers to exactly that slot; when the open list already
-// holds an upvalue for the slot at the position the search stops at, that very object is
-// returned (sharing), otherwise one new node is linked in at that position
+// ---- the list of open upvalues ------------------------------------------------------------
+// vm.openUpvalueHead links, through `next`, every upvalue that still points into this
+// thread's stack, in strictly descending slot order.  The invariant is stated without
+// reachability: every open upvalue other than the head has an open predecessor (olPred), links
+// descend (olLinks), the head has the greatest slot (olMax), no open upvalue lies strictly
+// between a node and its successor or below the last node (olGap), and a slot has at most one
+// open upvalue (olUniq).  Since the heap is finite and predecessors have strictly greater
+// slots, olPred makes every open upvalue reachable from the head.
+spec fn inStk(vm *Thread, a int) bool = sbase(vm) <= a && a < sbase(vm) + 24 * len(vm.stack)
+spec fn openIn(vm *Thread, u *Upvalue) bool = live(u) && inStk(vm, u.slot)
+spec fn olHead(vm *Thread) bool = vm.openUpvalueHead == nil || openIn(vm, vm.openUpvalueHead)
+spec fn olLinks(vm *Thread) bool = forall u *Upvalue :: openIn(vm, u) && u.next != nil ==> openIn(vm, u.next) && u.next.slot < u.slot
+spec fn olPred(vm *Thread) bool = forall u *Upvalue :: openIn(vm, u) && u != vm.openUpvalueHead ==> (exists p *Upvalue :: openIn(vm, p) && p.next == u)
+spec fn olMax(vm *Thread) bool = forall u *Upvalue :: openIn(vm, u) ==> vm.openUpvalueHead != nil && u.slot <= vm.openUpvalueHead.slot
+spec fn olGap(vm *Thread) bool = forall u *Upvalue :: forall w *Upvalue :: openIn(vm, u) && openIn(vm, w) && w.slot < u.slot ==> u.next != nil && w.slot <= u.next.slot
+spec fn olUniq(vm *Thread) bool = forall u *Upvalue :: forall w *Upvalue :: openIn(vm, u) && openIn(vm, w) && u.slot == w.slot ==> u == w
+
+// capturing a stack slot: the result refers to exactly that slot; an upvalue that is already
+// open for the slot is shared, otherwise one new node is linked in at its sorted position and
+// every other open upvalue stays on the list
 func (*Thread).captureUpvalue
   props C13
-  requires vm != nil
-  ensures ret != nil && ret.slot == slot
+  requires vm != nil && len(vm.stack) >= 1 && sbase(vm) > 0 && inStk(vm, slot)
+  requires olHead(vm) && olLinks(vm) && olPred(vm) && olMax(vm) && olGap(vm) && olUniq(vm)
+  ensures ret != nil && ret.slot == slot && openIn(vm, ret)
+  ensures shared: forall u *Upvalue :: old(openIn(vm, u)) && old(u.slot) == slot ==> ret == u
+  ensures kept: forall u *Upvalue :: old(openIn(vm, u)) ==> openIn(vm, u) && u.slot == old(u.slot)
+  ensures onlynew: forall u *Upvalue :: openIn(vm, u) ==> old(openIn(vm, u)) || u == ret
+  ensures head: olHead(vm)
+  ensures links: olLinks(vm)
+  ensures pred: olPred(vm)
+  ensures max: olMax(vm)
+  ensures gap: olGap(vm)
+  ensures uniq: olUniq(vm)
   ensures stack: forall a int :: a >= 0 && a < old(sbase(vm)) + 24 * old(len(vm.stack)) ==> load(value.Value, a) == old(load(value.Value, a))
+  ensures frame: vm.stack == old(vm.stack) && vm.sp == old(vm.sp) && vm.fp == old(vm.fp)
+  loop 1
+    invariant pc: (prevUpvalue == nil && currentUpvalue == vm.openUpvalueHead) || (prevUpvalue != nil && openIn(vm, prevUpvalue) && prevUpvalue.next == currentUpvalue && prevUpvalue.slot > slot)
+    invariant cur: currentUpvalue == nil || openIn(vm, currentUpvalue)
+    decreases ite(currentUpvalue == nil, 0, currentUpvalue.slot - sbase(vm) + 1)
 
-// closing every open upvalue at or above lastToClose: afterwards the head of the open list
-// (if any) lies below it
+// closing every open upvalue at or above lastToClose: exactly those leave the list (each keeps
+// the value its variable had), the others stay open and linked
 func (*Thread).opCloseUpvalues
   props C13
-  requires vm != nil
-  requires forall u *Upvalue :: u != nil ==> u.slot != nil
-  ensures vm.openUpvalueHead == nil || vm.openUpvalueHead.slot < lastToClose
-  ensures vm.sp == old(vm.sp) && vm.fp == old(vm.fp) && vm.stack == old(vm.stack)
+  requires vm != nil && len(vm.stack) >= 1 && sbase(vm) > 0
+  requires olHead(vm) && olLinks(vm) && olPred(vm) && olMax(vm) && olGap(vm) && olUniq(vm)
+  ensures below: forall u *Upvalue :: openIn(vm, u) ==> u.slot < lastToClose
+  ensures kept: forall u *Upvalue :: old(openIn(vm, u)) && old(u.slot) < lastToClose ==> openIn(vm, u) && u.slot == old(u.slot)
+  ensures closed: forall u *Upvalue :: old(openIn(vm, u)) && old(u.slot) >= lastToClose ==> closedUp(u) && upval(u) == old(upval(u))
+  ensures onlyold: forall u *Upvalue :: openIn(vm, u) ==> old(openIn(vm, u))
+  ensures head: olHead(vm)
+  ensures links: olLinks(vm)
+  ensures pred: olPred(vm)
+  ensures max: olMax(vm)
+  ensures gap: olGap(vm)
+  ensures uniq: olUniq(vm)
+  ensures frame: vm.sp == old(vm.sp) && vm.fp == old(vm.fp) && vm.stack == old(vm.stack)
   loop 1
-    invariant vm.sp == old(vm.sp) && vm.fp == old(vm.fp) && vm.stack == old(vm.stack)
-    invariant forall u *Upvalue :: u != nil ==> u.slot != nil
+    invariant frame: vm.sp == old(vm.sp) && vm.fp == old(vm.fp) && vm.stack == old(vm.stack)
+    invariant ol: olHead(vm) && olLinks(vm) && olPred(vm) && olMax(vm) && olGap(vm) && olUniq(vm)
+    invariant kept: forall u *Upvalue :: old(openIn(vm, u)) && old(u.slot) < lastToClose ==> openIn(vm, u) && u.slot == old(u.slot)
+    invariant closed: forall u *Upvalue :: old(openIn(vm, u)) && !openIn(vm, u) ==> old(u.slot) >= lastToClose && closedUp(u) && upval(u) == old(upval(u))
+    invariant onlyold: forall u *Upvalue :: openIn(vm, u) ==> old(openIn(vm, u)) && u.slot == old(u.slot)
+    invariant stackmem: forall a int :: a >= 0 ==> load(value.Value, a) == old(load(value.Value, a))
+    decreases ite(vm.openUpvalueHead == nil, 0, vm.openUpvalueHead.slot - sbase(vm) + 1)
 
 // ==== suspending and resuming generators / async bodies (C15, C10) =======================
 // The interpreter loop itself is outside the verified subset; what is assumed of it is that
